@@ -228,8 +228,7 @@ def search(ctx, broken, corr_failures):
 
 
 def explains(broken_item, found):
-    keys = " ".join(v.key for v in found if not v.key.startswith("C10:normalize_grid"))
-    return bool(keys)
+    return bool(found)
 
 
 def replay(ctx, data):
